@@ -242,3 +242,19 @@ Fixpoint confirmed (rs : list ereq) (trs : list (list sevent)) : list intent :=
   | r :: rs', tr :: trs' => if existsb s_is_conf tr then e_intent r :: confirmed rs' trs' else confirmed rs' trs'
   | _, _ => []
   end.
+
+(* field-for-field equality of two intents, spelled out *)
+Definition same_fields (a b : intent) : Prop :=
+  i_gtype a = i_gtype b /\ i_reserved a = i_reserved b /\ i_port a = i_port b /\ i_start a = i_start b /\
+  i_exp a = i_exp b /\ i_sni_ty a = i_sni_ty b /\ i_sni_label a = i_sni_label b /\ i_user a = i_user b /\
+  i_dcert a = i_dcert b /\ i_cmd a = i_cmd b.
+
+(* the communications a target instance confirmed, oldest first *)
+Fixpoint tconfirmed (ms : list tmsg) (trs : list (list tevent)) : list intent :=
+  match ms, trs with
+  | TComm i _ _ :: ms', tr :: trs' => if existsb is_conf_reply tr then i :: tconfirmed ms' trs' else tconfirmed ms' trs'
+  | TBadMsg :: ms', tr :: trs' => tconfirmed ms' trs'
+  | _, _ => []
+  end.
+Definition is_treply (e : tevent) : bool := match e with TReply _ => true | _ => false end.
+Definition treplies (tr : list tevent) : nat := List.length (filter is_treply tr).
